@@ -51,6 +51,10 @@ func myEnforceAlphabet() []mystmt {
 		{Kind: "rej-query-select-t-666-spelling", SQL: "/* x */ SELECT tok,  typed, id\nFROM t WHERE id = 666;", Rejected: selDenied, Marker: "666"},
 		{Kind: "rej-ps-select-secrets", SQL: "select v from secrets where id = ?", Prepared: true, Params: []sess.MyParam{mycheck.LongParam(9)}, Rejected: map[string]bool{"deny-table": true, "allow-then-denyall": true}, Marker: "secrets"},
 		{Kind: "rej-query-unparsable", SQL: "selec tok frm t 777", Rejected: all, Marker: "777"},
+		// stacked statements: one COM_QUERY with an admitted and a denied statement, in both orders (a
+		// connection with multi-statements executes all of them; the proxy forwards a packet as a whole)
+		{Kind: "rej-query-stacked-select-then-insert-secrets", SQL: "select id, plain, c from t; insert into secrets (id, v) values (1, 'x')", Rejected: all, Marker: "secrets"},
+		{Kind: "rej-query-stacked-insert-secrets-then-select", SQL: "insert into secrets (id, v) values (1, 'x'); select id, plain, c from t", Rejected: all, Marker: "secrets"},
 		// a denied statement written right behind a command that starts another exchange with the
 		// database (COM_CHANGE_USER), before the database has answered that command
 		{Kind: "rej-query-pipelined-after-change-user", SQL: "select v from secrets", Rejected: secretsDenied, Marker: "secrets", Pipelined: true},
@@ -259,6 +263,11 @@ func mysqlEnforcementPhase(r *ev.Run) {
 	r.States(sessions)
 	r.Set("mysql_enforcement_sessions", sessions)
 	r.Set("mysql_enforcement_depth", depth)
+	var kinds []string
+	for _, a := range alphabet {
+		kinds = append(kinds, a.Kind)
+	}
+	r.Set("mysql_enforcement_alphabet", kinds)
 }
 
 // runPipelined writes COM_CHANGE_USER and the statement in one go. The scripted database answers
